@@ -120,8 +120,11 @@ Ans(st, rows, items, spans) == [st |-> st, rows |-> rows, items |-> items, spans
 \* span whose start is shown), dm (the duration shown, whole milliseconds; -1: the trace extends over several ticks, its duration
 \* is computed from the concrete times)].  Two entries are equal iff their concrete forms are.
 OneTick(db, ti)    == \A p, q \in OfTrace(db, ti) : Sp(db, p).tk = Sp(db, q).tk
-RsOf(db, ti, s)    == IF Roots(db, ti) = {} THEN 0 ELSE s
-TraceEntry(db, ti) == [tr |-> ti, rs |-> RootOf(db, ti), ss |-> Earliest(db, OfTrace(db, ti)).s,
+\* the span whose fields are shown is named by the first span of the trace with the same service and name
+RsOf(db, ti, s)    == IF Roots(db, ti) = {} THEN 0
+                      ELSE LET same == {j \in DOMAIN db[ti] : db[ti][j].svc = db[ti][s].svc /\ db[ti][j].nm = db[ti][s].nm}
+                           IN  CHOOSE j \in same : \A i \in same : j <= i
+TraceEntry(db, ti) == [tr |-> ti, rs |-> RsOf(db, ti, RootOf(db, ti)), ss |-> Earliest(db, OfTrace(db, ti)).s,
                        dm |-> IF OneTick(db, ti) THEN Extent(db, ti) \div 2 ELSE -1]
 SpanEntry(db, p)   == [tr |-> p.t, rs |-> RsOf(db, p.t, p.s), ss |-> p.s, dm |-> Sp(db, p).du \div 2]
 NewestT(db, S, n) == IF n = 0 THEN S ELSE {ti \in S : Cardinality({tj \in S : Start(db, tj) > Start(db, ti)}) < n}
